@@ -19,7 +19,7 @@ TARGET_ATTRS = {'nf', 'nx', 'delta', 'rho', 'rhoend', 'rhobeg', 'maxfun', 'kopt'
                 'last_successful_iter', 'last_run_fixed_rho', 'total_unsuccessful_restarts', 'factorisation_current',
                 'rsave', 'points', 'fval_v', 'objval', 'jacsave', 'jacsave_eval_nums', 'nsamples_save', 'eval_num_save', 'model_jac', 'model_jac_eval_nums',
                 'model_const', 'xbase', 'sl', 'su', 'x', 'resid', 'obj', 'jacobian', 'nruns', 'flag', 'msg', 'xmin_eval_num', 'jacmin_eval_nums',
-                'diagnostic_info'}
+                'diagnostic_info', 'projections'}
 TARGET_NAMES = {'nruns_so_far', 'nf', 'nx', 'rhoend', 'rhobeg', 'exit_info', 'objfun', 'objfun_orig', 'xl_orig', 'xu_orig', 'xl', 'xu', 'x0',
                 'number_of_samples', 'num_samples_run', 'rvec_list', 'x', 'xnew', 'current_iter', 'nruns', 'maxfun', 'npt', 'user_params',
                 'scaling_changes', 'projections', 'params', 'xmin', 'rmin', 'objmin', 'jacmin', 'xmin_eval_num', 'jacmin_eval_nums',
@@ -27,7 +27,7 @@ TARGET_NAMES = {'nruns_so_far', 'nf', 'nx', 'rhoend', 'rhobeg', 'exit_info', 'ob
                 'rvec', 'obj', 'nsamples', 'x_eval_num', 'jac_eval_nums', 'xmin2', 'rmin2', 'objmin2', 'jacmin2', 'nsamples2',
                 'xmin_eval_num2', 'jacmin_eval_nums2', 'diagnostic_info', 'r0_avg', 'obj0_avg', 'nx_so_far', 'nf_so_far', 'x0_eval_num',
                 'xlb', 'xub', 'xp', 'bproj', 'xabs', 'ok_to_do_restart', 'soln_dict', 'resid', 'jacobian', 'flag', 'msg', 'soln', 'output', 'd', 'P', 'p', 'pred_reduction', 'g', 'H', 'J', 'r', 'W', 'right_scaling', 'left_scaling',
-                'eval_nx', 'tau', 'bounds_error', 'kmin', 'knew', 'sq_distances', 'all_sq_dist', 'furthest_points', 'closest_points', 'distsq', 'upper_limit', 'xopt'}
+                'eval_nx', 'tau', 'bounds_error', 'kmin', 'knew', 'sq_distances', 'all_sq_dist', 'furthest_points', 'closest_points', 'distsq', 'upper_limit', 'xopt', 'default_growing_method_set_by_user'}
 COMMITS = {'save_point', 'change_point', 'add_new_point'}
 FILES = ('util', 'model', 'controller', 'solver', 'trust_region', 'params', 'diagnostic_info')
 
@@ -95,7 +95,8 @@ class Walker:
             if isinstance(c, ast.Call):
                 ln = last_name(c.func)
                 dt = dotted(c.func)
-                if ln in CALLEES or dt.startswith('np.random') or dt.startswith('random.') or dt.startswith('user_params.'):
+                if ln in CALLEES or dt.startswith('np.random') or dt.startswith('random.') or dt.startswith('user_params.') or \
+                        (ln == 'params' and any(k.arg == 'new_value' for k in c.keywords)):      # parameter writes, not the hundreds of reads
                     args = [ast.unparse(x) for x in c.args] + ['%s=%s' % (k.arg, ast.unparse(k.value)) if k.arg else '**' + ast.unparse(k.value) for k in c.keywords]
                     self.calls.append((self.mod, qual, ln, dt, self.ordinal(qual, ln), args, list(guards), c.lineno))
             elif isinstance(c, ast.Lambda):
